@@ -420,6 +420,13 @@ def d3_exact(rep, f, c):
                 fl, ok = literal(e_, t_)
                 if not ok:
                     bad.append('%s%s' % ('' if t_ else '!', expr_str(e_, b)[:90]))
+            # a match on a field (`matches!(self.lead, None)`): the arm taken must be exactly the initial variant
+            for e in p.conds():
+                if e[1][0] == 'variant' and fld(e[1][1]) is not None:
+                    iv = init.get(fld(e[1][1]))
+                    ivn = variant_name(iv) if iv is not None and iv[0] == 'agg' else None
+                    if e[2] != ivn:
+                        bad.append('%s matched as %s' % (fld(e[1][1]), e[2]))
         n += 1
         rep.ob('C19-D3.exact', name, not bad and ntrue >= 1,
                'in_neutral_state can answer true in a state other than the one %s::new builds: the test %s does not pin its field to exactly the initial value '
